@@ -536,6 +536,8 @@ def run(chk):
         if m != ('match' in kinds):
             chk.violation('impl-vs-spec', desc, {'matches': m, 'analyze-string parts': parts})
         chk.nontrivial.add(text + '~' + subj)
+    # ---------------- 5a. character classes under the i flag (C12/CaseClass.v): literals match their case variants, escapes do not
+    case_class_section(chk, rng, quick)
     # ---------------- 5b. fn:replace replacement strings (F&O 5.6.4): $N is the longest group number that exists, a single digit beyond
     # the groups is the zero-length string, \\ and \$ are the escaped characters, anything else is FORX0004; with the q flag the
     # replacement (and a backslash in the input) is literal. Expected values written from the rule.
@@ -568,6 +570,98 @@ def run(chk):
 ACCEPTED_INVALID = set()
 DELEGATED_INVALID = set()
 KNOWN_ACCEPTED = set()
+
+
+def case_class_section(chk, rng, quick):
+    import unicodedata
+    from elementpath import select, ElementPathError
+    from elementpath.xpath31 import XPath31Parser
+    chk.prove(['theories/C12/CaseClass.v', 'theories/C12/CaseClassProofs.v', 'theories/C12/CaseRun.v'], 'theories/C12/CaseClassProperties.v')
+    ALPHA = ['a', 'A', 'b', 'B', 'c', 'C', 'k', 'K', '\u212a', 's', 'S', '\u017f', '\u03c3', '\u03a3', '\u03c2', '\xe9', '\xc9', 'z', 'Z', '1', '_', ' ', '\xb5', '\u039c', '\u03bc']
+    # the case variants of CPython's single character mappings (modelled external), over all code points
+    by_l, by_u = {}, {}
+    for cp in range(0x110000):
+        ch = chr(cp)
+        lo, up = ch.lower(), ch.upper()
+        if lo != ch or up != ch:
+            by_l.setdefault(lo, set()).add(cp)
+            by_u.setdefault(up, set()).add(cp)
+
+    def variants(ch):
+        lo, up = ch.lower(), ch.upper()
+        if lo == ch and up == ch:
+            return []
+        v = set(by_l.get(lo, ())) | set(by_u.get(up, ())) | {ord(x) for x in (lo, up) if len(x) == 1}
+        v.discard(ord(ch))
+        return sorted(v)
+    probes = sorted({ord(c) for c in ALPHA} | {v for c in ALPHA for v in variants(c)})
+    table = '[' + '; '.join(f"({ord(c)}, {core.zlist(variants(c))})" for c in map(chr, probes)) + ']'
+    ESC = {'\\p{Lu}': lambda c: unicodedata.category(c) == 'Lu', '\\p{Ll}': lambda c: unicodedata.category(c) == 'Ll',
+           '\\p{L}': lambda c: unicodedata.category(c)[0] == 'L', '\\d': lambda c: unicodedata.category(c) == 'Nd',
+           '\\P{Lu}': lambda c: unicodedata.category(c) != 'Lu', '\\s': lambda c: c in ' \t\n\r'}
+
+    def rand_group():
+        lits, text = [], ''
+        for _ in range(rng.randint(0, 3)):
+            if rng.random() < 0.3:
+                lo, hi = rng.choice([('a', 'c'), ('A', 'C'), ('r', 't'), ('\u03b1', '\u03c9'), ('J', 'L')])
+                lits += list(range(ord(lo), ord(hi) + 1))
+                text += f'{lo}-{hi}'
+            else:
+                c = rng.choice([x for x in ALPHA if x not in ' _'])
+                lits.append(ord(c))
+                text += c
+        escapes = []
+        for _ in range(rng.randint(0, 2) if lits else 1):
+            e = rng.choice(list(ESC))
+            escapes.append([p for p in probes if ESC[e](chr(p))])
+            text += e
+        neg = rng.random() < 0.3
+        coq = f"Group {core.zlist(lits)} [{'; '.join(core.zlist(e) for e in escapes)}]"
+        return ('^' if neg else '') + text, (f'Neg ({coq})' if neg else coq)
+
+    cases = [('[\\p{Lu}]', 'Group [] [%s]' % core.zlist([p for p in probes if unicodedata.category(chr(p)) == 'Lu'])),
+             ('[^\\p{Lu}]', 'Neg (Group [] [%s])' % core.zlist([p for p in probes if unicodedata.category(chr(p)) == 'Lu'])),
+             ('[^K]', 'Neg (Group [75] [])'), ('[a-c-[B]]', 'Sub (Group [97; 98; 99] []) (Group [66] [])')]
+    for _ in range(60 if quick else 2500):
+        t, c = rand_group()
+        if rng.random() < 0.35:
+            t2, c2 = rand_group()
+            t, c = f'{t}-[{t2}]', f'Sub ({c}) ({c2})'
+        cases.append(('[' + t + ']', c))
+    model = core.run_coq_cases('C12', 'From EP Require Import C12.CaseClass C12.CaseRun.', [f'run_case {table} ({c}) {core.zlist(probes)}' for _, c in cases],
+                               chunk=200, tag='caseclass', preamble='Open Scope Z_scope.')
+    for (text, c), mo in zip(cases, model):
+        desc = {'pattern': text, 'flags': 'i'}
+        try:
+            # one translation per flag: the probes (distinct characters) that fn:replace removes are the ones the class matches
+            allp = ''.join(chr(p) for p in probes)
+            rest_i = select(None, 'replace($s, $p, "", "i")', variables={'s': allp, 'p': text}, parser=XPath31Parser, item=1)
+            rest_p = select(None, 'replace($s, $p, "")', variables={'s': allp, 'p': text}, parser=XPath31Parser, item=1)
+            got_i = [int(chr(p) not in rest_i) for p in probes]
+            got_plain = [int(chr(p) not in rest_p) for p in probes]
+            k0 = probes[len(probes) // 2]
+            one = select(None, 'matches($s, $p, "i")', variables={'s': chr(k0), 'p': text}, parser=XPath31Parser, item=1)
+            if int(bool(one)) != got_i[len(probes) // 2]:
+                chk.violation('impl-vs-spec', desc | {'input': ascii(chr(k0))}, {'fn:matches': one, 'fn:replace removes it': bool(got_i[len(probes) // 2])})
+        except ElementPathError as e:
+            chk.violation('impl-vs-spec', desc, 'a well-formed class is rejected: ' + str(e)[:150])
+            continue
+        except Exception as e:
+            chk.violation('foreign-exception', desc, repr(e)[:200])
+            continue
+        chk.evaluations += 2 * len(probes)
+        chk.count('classes under the i flag')
+        mi, ms, mp = [x[0] for x in mo], [x[1] for x in mo], [x[2] for x in mo]
+        if got_i != mi:
+            chk.corr_fail.append((desc, got_i, mi))
+        if got_i != ms:
+            k = next(j for j in range(len(probes)) if got_i[j] != ms[j])
+            chk.violation('impl-vs-spec', desc | {'input': ascii(chr(probes[k]))}, {'matches with the i flag': bool(got_i[k]), 'F&O': bool(ms[k])})
+        if got_plain != mp:
+            k = next(j for j in range(len(probes)) if got_plain[j] != mp[j])
+            chk.violation('impl-vs-spec', desc | {'input': ascii(chr(probes[k])), 'flags': ''}, {'matches': bool(got_plain[k]), 'model': bool(mp[k])})
+        chk.nontrivial.add('caseclass:' + text)
 
 
 def replay(rec):
